@@ -268,7 +268,9 @@ fn gen<'a>(guests: &'a [Guest], thorough: bool) -> impl Fn(&mut EnumCtx) + Sync 
                             let missing = if n & 1 != 0 && mask & 1 == 0 { "R" } else { "W" };
                             e.finding(&format!("perm|{path}|allowed-without-{missing}"), || format!("`{}` completed although its {} operand area has mask {} (needs {})", g.text, if which == 0 { "memory" } else { "stack" }, mask_name(mask), mask_name(n)), w)
                         }
-                        (Some(n), StepOut::Err(er)) if mask & n == n => e.finding(&format!("perm|{path}|denied-with-permission"), || format!("`{}` failed although mask {} grants {}: {}", g.text, mask_name(mask), mask_name(n), crate::emu::first_line(&er)), w),
+                        // a guest store may read its destination first (every x86 page that is
+                        // writable is readable): 'must succeed' is demanded only with R and W
+                        (Some(n), StepOut::Err(er)) if mask & n == n && (n & 2 == 0 || mask & 3 == 3) => e.finding(&format!("perm|{path}|denied-with-permission"), || format!("`{}` failed although mask {} grants {}: {}", g.text, mask_name(mask), mask_name(n), crate::emu::first_line(&er)), w),
                         (_, StepOut::Err(_)) => {
                             if areas_hash(&ax) != before {
                                 e.finding(&format!("perm|{path}|denied-access-changed-memory"), || format!("`{}` was denied (mask {}) but memory changed", g.text, mask_name(mask)), w);
